@@ -113,10 +113,11 @@ func fetch(
 			unmarshalFn := blk.UnmarshalFn(root)
 			err := unmarshal(unmarshalFn, bitswapBlk.RawData())
 			if err != nil {
-				// this means verification succeeded in the hasher but failed here
-				// this case should never happen in practice
-				// and if so something is really wrong
-				panic(fmt.Sprintf("unmarshaling duplicate block: %s", err))
+				// this means verification succeeded in the hasher but failed here:
+				// the hasher consulted the UnmarshalFn of the original fetch, which accepts
+				// anything once its Block is populated, so a peer can get here with arbitrary bytes.
+				// The Block stays empty, and the fetch must not be reported as successful.
+				return fmt.Errorf("unmarshaling duplicate block: %w", err)
 			}
 			// NOTE: This approach has a downside that we redo deserialization and computationally
 			// expensive computation for as many duplicates. We tried solutions that doesn't have this
